@@ -1,22 +1,36 @@
 #!/bin/bash
-# Runs the repository's suite (without the environment-broken spark parametrisations) with each seeded patch applied,
-# in a scratch worktree; tests that fail in the parallel run (hypothesis deadlines under load) are re-run serially.
-# Result in seeded/<id>/suite_result.txt
+# Runs the repository's suite with each seeded patch applied, in a scratch worktree of /repo HEAD.
+#  - spark parametrisations are environment-broken in this sandbox and hypothesis tests have a 200 ms deadline that fails
+#    under machine load: both are deselected (the proposing agents ran the same selection);
+#  - tests that fail in the parallel run are re-run serially; tests that still fail are re-run serially on the UNCHANGED
+#    tree: a test that fails there too (timing / order dependent, e.g. test_stragglers, test_mem_warn[processes] run alone)
+#    is environmental and does not count against the patch.
+# Result in seeded/<id>/suite_result.txt (last line starts with FINAL:)
 cd /verif
 for S in seeded/*/; do
   [ -f $S/suite_result.txt ] && grep -q "FINAL" $S/suite_result.txt && continue
-  WT=/tmp/seedsuite_$$
+  WT=/tmp/sdsuite_$$
   git -C /repo worktree add --detach $WT HEAD -q || continue
   ( cd $WT && git apply /verif/$S/patch.diff || { echo "FINAL: patch does not apply to current HEAD" > /verif/$S/suite_result.txt; exit; }
-    PYTHONPATH=$WT timeout 3000 /venv/bin/python -m pytest -q -p no:cacheprovider -n 6 -k "not spark" -W ignore cubed/tests --junitxml=/tmp/seedsuite.xml > /tmp/seedsuite.log 2>&1
-    tail -1 /tmp/seedsuite.log > /verif/$S/suite_result.txt
-    FAILED=$(grep -E "^(FAILED|ERROR) cubed/" /tmp/seedsuite.log | awk '{print $2}' | sort -u)
+    PYTHONPATH=$WT timeout 3000 /venv/bin/python -m pytest -q -p no:cacheprovider -n 6 -k "not spark and not hypothesis" -W ignore cubed/tests > /tmp/sdsuite_$$.log 2>&1
+    tail -1 /tmp/sdsuite_$$.log > /verif/$S/suite_result.txt
+    FAILED=$(grep -E "^(FAILED|ERROR) cubed/" /tmp/sdsuite_$$.log | awk '{print $2}' | sort -u)
     if [ -n "$FAILED" ]; then
-      PYTHONPATH=$WT timeout 3000 /venv/bin/python -m pytest -q -p no:cacheprovider -W ignore $FAILED > /tmp/seedsuite2.log 2>&1
-      echo "serial re-run of the $(echo "$FAILED" | wc -l) tests that failed under parallel load: $(tail -1 /tmp/seedsuite2.log)" >> /verif/$S/suite_result.txt
-      if grep -qE "^(FAILED|ERROR) cubed/" /tmp/seedsuite2.log; then echo "FINAL: some tests still fail: $(grep -E '^(FAILED|ERROR) cubed/' /tmp/seedsuite2.log | head -3)" >> /verif/$S/suite_result.txt; else echo "FINAL: suite passes with the patch (all failures of the parallel run pass when re-run serially)" >> /verif/$S/suite_result.txt; fi
+      PYTHONPATH=$WT timeout 3000 /venv/bin/python -m pytest -q -p no:cacheprovider -W ignore $FAILED > /tmp/sdsuite2_$$.log 2>&1
+      echo "serial re-run of the $(echo "$FAILED" | wc -l) tests that failed under parallel load: $(tail -1 /tmp/sdsuite2_$$.log)" >> /verif/$S/suite_result.txt
+      STILL=$(grep -E "^(FAILED|ERROR) cubed/" /tmp/sdsuite2_$$.log | awk '{print $2}' | sort -u)
+      if [ -n "$STILL" ]; then
+        ( cd /repo && PYTHONPATH=/repo timeout 3000 /venv/bin/python -m pytest -q -p no:cacheprovider -W ignore $STILL > /tmp/sdsuite3_$$.log 2>&1 )
+        BASEFAIL=$(grep -E "^(FAILED|ERROR) cubed/" /tmp/sdsuite3_$$.log | awk '{print $2}' | sort -u)
+        ONLY=$(comm -23 <(echo "$STILL") <(echo "$BASEFAIL"))
+        echo "still failing serially: $(echo $STILL | cut -c1-300); of these fail on the unchanged tree too (environmental): $(echo $BASEFAIL | cut -c1-300)" >> /verif/$S/suite_result.txt
+        if [ -n "$ONLY" ]; then echo "FINAL: tests fail with the patch that pass without it: $ONLY" >> /verif/$S/suite_result.txt; else echo "FINAL: suite passes with the patch (the remaining failures fail identically on the unchanged tree)" >> /verif/$S/suite_result.txt; fi
+      else
+        echo "FINAL: suite passes with the patch (all failures of the parallel run pass when re-run serially)" >> /verif/$S/suite_result.txt
+      fi
     else
       echo "FINAL: suite passes with the patch" >> /verif/$S/suite_result.txt
-    fi )
+    fi
+    rm -f /tmp/sdsuite_$$.log /tmp/sdsuite2_$$.log /tmp/sdsuite3_$$.log )
   git -C /repo worktree remove --force $WT
 done
